@@ -237,11 +237,32 @@ func cmdCheck(args []string) int {
 			maxW = 60
 		}
 		rng.Shuffle(len(okLeaves), func(i, j int) { okLeaves[i], okLeaves[j] = okLeaves[j], okLeaves[i] })
+		// half of the sample: the leaves with the smallest path conditions (cheap, stable); the rest random
+		{
+			bySize := append([]*Leaf{}, okLeaves...)
+			sort.SliceStable(bySize, func(i, j int) bool {
+				if len(bySize[i].PC) != len(bySize[j].PC) {
+					return len(bySize[i].PC) < len(bySize[j].PC)
+				}
+				return bySize[i].PathID < bySize[j].PathID
+			})
+			var mixed []*Leaf
+			seenL := map[*Leaf]bool{}
+			for i := 0; i < len(okLeaves); i++ {
+				for _, c := range []*Leaf{bySize[i], okLeaves[i]} {
+					if !seenL[c] {
+						seenL[c] = true
+						mixed = append(mixed, c)
+					}
+				}
+			}
+			okLeaves = mixed
+		}
 		witDeadline := time.Now().Add(witBudget / time.Duration(len(results)))
 		tried := 0
 		got := 0
 		for _, lf := range okLeaves {
-			if got >= maxW || tried >= 2*maxW {
+			if got >= maxW || tried >= 3*maxW {
 				break
 			}
 			tried++
